@@ -222,7 +222,11 @@ Inductive mop :=
 | MLoad (ts : list dtask) (overwrite : bool)
 | MFreeze | MUnfreeze | MRefresh | MVerify | MCleanup
 | MArmFault (k : nat)
-| MDisarm.
+| MDisarm
+| MGenFun (args : list (path * node)) (sd_order start_order : list path).
+        (* g = manager.gen_fun(name, **{arg_i: ref_i}); g(values...): the generated function is
+           executed on the plain containers; sd_order: iteration order of the start set built
+           from the arguments' _get_dependencies(); start_order as for MSet *)
 
 Record outcome := mkOut { o_err : option merr; o_trace : list path }.
 
@@ -271,6 +275,32 @@ Definition set_value (m : dmgr) (s : dstate) (r : path) (v : vsrc) (sd_order sta
               end
           end
       end
+  end.
+
+(* Manager.mk_fun: start = union of the arguments' _get_dependencies(); the listed tasks are
+   find_tasks(start).  The source text is "ref_i = arg_i" for every argument, then one line
+   "target = expr" per task. *)
+Definition args_start (args : list path) : list path :=
+  fold_left (fun acc p => union acc (deps_of p)) args [].
+
+Definition mk_fun (m : dmgr) (args : list path) (sd_order start_order : list path) : res (list dtask * dmgr) :=
+  if same_set path_eqb sd_order (args_start args) then find_tasks path_eqb m sd_order start_order
+  else Err EOracle.
+
+(* executing the generated function on the plain containers *)
+Fixpoint arg_writes (s : dstate) (args : list (path * node)) : dstate * option merr :=
+  match args with
+  | [] => (s, None)
+  | (p, v) :: rest => match dwrite s p v with
+                      | Ok s' => arg_writes s' rest
+                      | Err e => (s, Some e)
+                      end
+  end.
+
+Definition exec_fun (tl : list dtask) (args : list (path * node)) (s : dstate) : dstate * list path * option merr :=
+  match arg_writes s args with
+  | (s1, Some e) => (s1, [], Some e)
+  | (s1, None) => run_tasks tl s1
   end.
 
 Definition step (m : dmgr) (s : dstate) (o : mop) : dmgr * dstate * outcome :=
@@ -338,6 +368,11 @@ Definition step (m : dmgr) (s : dstate) (o : mop) : dmgr * dstate * outcome :=
   | MCleanup => (cleanup m, s, mkOut None [])
   | MArmFault k => (m, mkD (d_st s) (d_prev s) (Some k), mkOut None [])
   | MDisarm => (m, mkD (d_st s) (d_prev s) None, mkOut None [])
+  | MGenFun args sd so =>
+      match mk_fun m (map fst args) sd so with
+      | Err e => (m, s, mkOut (Some e) [])
+      | Ok (tl, m') => let '(s', tr, er) := exec_fun tl args s in (m', s', mkOut er tr)
+      end
   end.
 
 Fixpoint run_hist (m : dmgr) (s : dstate) (ops : list mop) : list (dmgr * dstate * outcome) :=
